@@ -600,7 +600,9 @@ func e2eAppComponent(r *hx.Run) {
 			obs = "FAIL exit=" + fmt.Sprint(res.exit) + " " + hx.HexS(lastLine(res.stderr))
 		default:
 			var seen []string
-			x := 0
+			// x = connections to destinations OUTSIDE the target set: excluded targets, and the decoy that the
+			// proxy / docker-client variables of the process environment point at
+			x := decoyHits()
 			farm.mu.Lock()
 			for _, t := range sp.targets {
 				if t.excl {
